@@ -168,7 +168,7 @@ fn selection_campaign(report: &mut Report, n: usize) {
         let qsrc = if st.chance(50) { QuerySrc::Path(scratch.file(&b.case.document, "graphql")) } else { QuerySrc::Text(b.case.document.clone()) };
         let via_path = matches!(qsrc, QuerySrc::Path(_));
         report.feature(if via_path { "query:path" } else { "query:text" });
-        jobs.push(Job { schema_path: sp, query: qsrc, opts });
+        jobs.push(Job { schema_path: sp, query: qsrc, opts, cwd: None });
         metas.push(Meta { tape: tp.clone(), doc: b.case.document.clone(), schema: b.case.schema_text.clone(), ops, mode, name, norm_rust, expect, allow_all_or_err: allow, via_path });
     }
     let outs = Pool::default().run(&jobs);
@@ -241,7 +241,7 @@ fn replay_selection(report: &mut Report, v: &Value) {
     };
     let doc_text = v["document"].as_str().unwrap_or("").to_string();
     let qsrc = if v["via_path"].as_bool().unwrap_or(false) { QuerySrc::Path(scratch.file(&doc_text, "graphql")) } else { QuerySrc::Text(doc_text) };
-    let o = Pool::default().run_alone(&Job { schema_path: sp, query: qsrc, opts });
+    let o = Pool::default().run_alone(&Job { schema_path: sp, query: qsrc, opts, cwd: None });
     report.evaluations += 1;
     let want: Option<Vec<String>> = serde_json::from_value(v["expect"].clone()).ok().flatten();
     let ok = match (&o, &want) {
